@@ -31,7 +31,7 @@ CLAIMED = {
    ref="DESIGN.md section 5 C05"),
  "C06": dict(
    text="Proof of the sequential clauses for every abort point: alphaBeta, quiescence and iterativeDeepen are verified (recursion through their own contracts, move loops by invariants) to leave every scalar attribute of the board and the hash history exactly as they found them on every path - including aborts (each poll of the stop channel is a nondeterministic choice), illegal moves, null-move pruning, goto Fin, pruning breaks and the abort fallback loop - and to leave the history stack and the move-store frame stack balanced, so the same instance can be searched again; the abort flag is sticky. Make/undo pairs are used through abstract views whose only assumed fact is the round trip proved under C03.",
-   note="Not claimed in this revision: legality of the returned move and the final-root clauses (they need the PV contracts of C07 and the picker's exhaustiveness), the UCI `go` numeric path (defect F3: `go depth N` narrows to int8, N >= 128 returns bestmove 0000 on a non-final root; recorded as a known finding), and the spsa build. Views of callees (picker.Next, tt.LookUp/Insert, eval, ranker) are frame-only and listed as trusted; termination is not proved.",
+   note="Not claimed in this revision: legality of the returned move and the final-root clauses (they need the PV contracts of C07 and the picker's exhaustiveness), the UCI `go` numeric path (handleGo mixes argument parsing with goroutines and closures and could not be brought inside the subset; the int8 narrowing of `go depth N` for N >= 128, which returns bestmove 0000 on a non-final root, was confirmed by hand and is described in DESIGN.md section 6 as an observation outside what the checks decide), and the spsa build. Views of callees (picker.Next, tt.LookUp/Insert, eval, ranker) are frame-only and listed as trusted; termination is not proved.",
    ref="DESIGN.md section 5 C06"),
  "C08": dict(
    text="Proof of the budget clause and of the no-store-after-abort mechanism: incrementNodes never takes the node counter past a non-negative hard budget and is the only writer of it in the search package (frame of every other function under contract excludes it except through incrementNodes' callers, whose contracts carry the same bound), so a hard budget of N nodes is never exceeded along alphaBeta/quiescence recursion; in alphaBeta the fail-high store (tt.Insert) and the history update (FailHigh) that consume child results are reached only with the abort flag clear, for every arrival time of the stop signal.",
